@@ -103,7 +103,7 @@ def mk_exhaustion(reach):
     return h
 
 
-def mk_replay(n1, clean, first):
+def mk_replay(n1, clean, first, lives3=False):
   """replay state across clean / unclean stops, through the real unprotect"""
   def make(reach):
     osckit, fakefs, o, ctx = _kit()
@@ -129,8 +129,9 @@ def mk_replay(n1, clean, first):
         except o.ProtectionInvalid:
             return False
 
-    def h(e2: int, e3: int, crash: int, r1: int) -> None:
-        assert 0 <= e2 < 4 and 0 <= e3 < 4 and 0 <= crash <= 10 and 0 <= r1 < 4
+    def h(e2: int, e3: int, crash: int, r1: int, r3: int, clean2: bool) -> None:
+        assert 0 <= e2 < 4 and 0 <= e3 < 4 and 0 <= crash <= 10 and 0 <= r1 < 4 and 0 <= r3 < 4
+        assert lives3 or (r3 == 0 and not clean2)
         fs = fakefs.FakeFS({"/c/settings.json": SETTINGS})
         c = ctx(fs, first=True)
         assert c.sender_key == peer.recipient_key and c.recipient_key == peer.sender_key
@@ -165,6 +166,25 @@ def mk_replay(n1, clean, first):
             assert not ok, "request accepted before the stop was accepted again after reload"
         if not was_init:
             assert not ok, "request accepted although the replay state is unknown (no Echo exchange happened)"
+        if ok:
+            accepted.append(NUMS[r1])
+        if lives3:
+            # second life ends (cleanly or not) without an Echo exchange having happened; third life
+            if clean2:
+                c2._destroy()
+            c2.lockfile = None
+            fs3 = fakefs.FakeFS(fs2.survivors())
+            c3 = ctx(fs3)
+            w3 = c3.recipient_replay_window
+            was_init3 = w3.is_initialized()
+            ok3 = feed(c3, r3)
+            if NUMS[r3] in accepted:
+                assert not ok3, "request accepted in an earlier life was accepted again two restarts later"
+            if not was_init3:
+                assert not ok3, "request accepted although the replay state is unknown (no Echo exchange happened)"
+            if not was_init and not ok:
+                assert not was_init3, "replay state became usable across a restart although no Echo exchange ever happened"
+            c3.lockfile = None
         c2.lockfile = None
         assert not reach, "reach"
     return h
@@ -191,5 +211,12 @@ def obligations(tier):
                               symbolic={"later requests in life 1": "%d by index over sequence numbers 0,1,2,40" % (n1 - 1), "crash position": "0..10 (beyond last effect = none)",
                                         "request fed after reload": "index over 4"},
                               concrete={"requests in life 1": n1, "clean stop attempted": clean, "first request": first},
+                              stubs=["FakeFS", "identity JSON", "ideal AEAD/HKDF", "secrets.token_bytes -> per-instance value"]))
+    for clean in (False, True):
+        obs.append(Obligation("replay-state-three-lives-%s" % ("clean" if clean else "unclean"), mk_replay(2, clean, 0, lives3=True),
+                              600 if q else 1800, functions=FUNCS + ["oscore.CanUnprotect.unprotect", "oscore.ReplayWindow.*"],
+                              symbolic={"second request in life 1": "index/4", "crash position in life 1": "0..10", "request fed in life 2": "index/4",
+                                        "life 2 stopped cleanly": "bool", "request fed in life 3": "index/4"},
+                              concrete={"lives": 3, "clean stop attempted in life 1": clean},
                               stubs=["FakeFS", "identity JSON", "ideal AEAD/HKDF", "secrets.token_bytes -> per-instance value"]))
     return obs
